@@ -28,7 +28,13 @@ FINISH = dict(
          "in either order, offers all or a subset of the challenge types, serves some authorizations as already "
          "valid, some challenge hooks exit non-zero; per authorization the hook records (type, identifier, "
          "file_name, proof, raw_proof, identifier_tls_alpn) and the ready POSTs are judged by Spec.C05.holds. "
-         "non-trivial = every proof / lookup with a wildcard or several types / flow.",
+         "non-trivial = every proof / lookup with a wildcard or several types / flow. (iv) identifier_tls_alpn of random IPv4 "
+         "/ IPv6 identifiers through the real Identifier::new vs Model.Ident.reverseName; flows with IPv6 / other IPv4 / IDN / "
+         "mixed-case identifiers, a wildcard without or nested under its plain name, authorizations served valid / invalid / "
+         "deactivated / expired / revoked (no hook and no ready POST for any of them), challenge lists with duplicates, one "
+         "entry, none, unknown types, different per authorization, dns-01 only for wildcards, an explicit \"wildcard\": "
+         "false, a second hook per challenge type (failing, killed, failing but allowed to, succeeding), slow hooks, the account "
+         "key changed by a roll-over before the issuance, all 7 account key types.",
 )
 
 KEYTYPES = ["ecdsa-p256", "ecdsa-p384", "ecdsa-p521", "ed25519", "ed448", "rsa2048", "rsa4096"]
@@ -135,10 +141,126 @@ def flow_scenarios(ctx):
     return scs
 
 
+def expected_dns(name):
+    """Lower-case A-label form, computed without the code under test."""
+    out = []
+    for lab in name.split("."):
+        out.append(lab.lower() if all(ord(c) < 128 for c in lab) else "xn--" + lab.lower().encode("punycode").decode())
+    return ".".join(out)
+
+
+def idents_part(ctx):
+    """identifier_tls_alpn: the reverse-DNS name (RFC 8738 / RFC 3596) of IP identifiers through the real
+    Identifier::new + get_tls_alpn_name vs Model.Ident.reverseName; DNS identifiers: the name itself."""
+    rng = ctx.rng
+    n = 150 if ctx.quick() else 5000
+    ips = ["192.0.2.9", "203.0.113.255", "10.0.0.1", "0.0.0.0", "255.255.255.255", "2001:db8::1", "::1", "::",
+           "4321:0:1:2:3:4:567:89ab", "fe80::1:2:3:4", "2001:DB8:0:0:1::00ff", "ffff:ffff:ffff:ffff:ffff:ffff:ffff:ffff"]
+    ips += [str(ipaddress.IPv4Address(rng.getrandbits(32))) for _ in range(n)]
+    ips += [str(ipaddress.IPv6Address(rng.getrandbits(128))) for _ in range(n)]
+    ips += [ipaddress.IPv6Address(rng.getrandbits(128) & rng.getrandbits(128) & rng.getrandbits(128)).exploded for _ in range(n // 3)]
+    impl = vlib.probe([{"op": "ident", "type": "ip", "value": s, "challenge": rng.choice(["http-01", "tls-alpn-01"])} for s in ips])
+    mod = vlib.model([{"op": "reverse_name", "octets_hex": ipaddress.ip_address(s).packed.hex()} for s in ips])
+    for s, i, m in zip(ips, impl, mod):
+        ctx.case({"ident-ip": s})
+        ctx.count("ident:ipv%d" % ipaddress.ip_address(s).version)
+        if not isinstance(i, dict) or "ok" not in i:
+            ctx.violation("IP identifier %r refused or crashed: %s" % (s, i), {"probe": {"op": "ident", "type": "ip", "value": s, "challenge": "http-01"}})
+        elif i["ok"].get("tls_alpn_name") != m.get("name"):
+            ctx.disagreements += 1
+            ctx.violation("identifier_tls_alpn of %s is %r, the reverse-DNS form is %r" % (s, i["ok"].get("tls_alpn_name"), m.get("name")),
+                          {"probe": {"op": "ident", "type": "ip", "value": s, "challenge": "http-01"}, "impl": i, "model": m})
+    ctx.traces += len(ips)
+
+
+STATUSES = ["valid", "invalid", "deactivated", "expired", "revoked"]
+SHAPES = ["dup", "single", "empty", "unknown+", "per-authz", "wildcard-dns-only"]
+
+
+def flow_scenarios_more(ctx, first_idx):
+    """What `flow_scenarios` never draws: IPv6 and other IPv4 identifiers, IDN / mixed-case names, a wildcard
+    without (or nested under) its plain name, authorizations served in every status, challenge lists with
+    duplicates / one entry / none / unknown types / different per authorization, an explicit "wildcard": false,
+    a second hook per challenge type (failing, allowed to fail), slow hooks, the account key after a roll-over,
+    the three account key types the first generator leaves out."""
+    rng = ctx.rng
+    n = 36 if ctx.quick() else 1200
+    pool = [("example.org", "dns"), ("www.example.org", "dns"), ("a.www.example.org", "dns"), ("api.example.net", "dns"),
+            ("Bücher.Example", "dns"), ("MiXed.Example.ORG", "dns"), ("ПРИМЕР.example", "dns"),
+            ("192.0.2.9", "ip"), ("203.0.113.255", "ip"), ("2001:db8::1", "ip"), ("2001:DB8:0:0:1::00ff", "ip"),
+            ("fe80::1:2:3:4", "ip")]
+    keys = ["ecdsa_p521", "ed448", "rsa4096", "ecdsa_p256", "ed25519", "rsa2048", "ecdsa_p384"]
+    scs = []
+    for j in range(n):
+        ids = []
+        for nm, typ in rng.sample(pool, rng.randint(1, 4)):
+            if typ == "ip":
+                ids.append({"ip": nm, "challenge": rng.choice(["http-01", "tls-alpn-01"])})
+                continue
+            r = rng.random()
+            if r < 0.25:       # the wildcard alone
+                ids.append({"dns": "*." + nm, "challenge": "dns-01"})
+            elif r < 0.5:      # name and wildcard, possibly with the SAME type
+                ids.append({"dns": nm, "challenge": rng.choice(TYPES)})
+                ids.append({"dns": "*." + nm, "challenge": "dns-01"})
+            else:
+                ids.append({"dns": nm, "challenge": rng.choice(TYPES)})
+        rng.shuffle(ids)
+        vals = [("*." + expected_dns(x["dns"][2:]) if x.get("dns", "").startswith("*.") else expected_dns(x["dns"]))
+                if "dns" in x else str(ipaddress.ip_address(x["ip"])) for x in ids]
+        sc = {"idx": first_idx + j, "ids": ids, "offered": TYPES, "valid": [], "fail_hook": None,
+              "authz_order": rng.choice(["normal", "reversed"]), "challenge_order": rng.choice(["normal", "reversed"]),
+              "key_type": keys[j % len(keys)] if not (ctx.quick() and keys[j % len(keys)] == "rsa4096" and j >= 7) else "rsa2048",
+              "more": True}
+        if j % 2 == 0:
+            # authorizations served in a status other than pending (one of them, or several)
+            sc["status"] = {v: STATUSES[(j // 2 + k) % len(STATUSES)] for k, v in enumerate(vals) if k == 0 or rng.random() < 0.3}
+            if rng.random() < 0.5:   # let the pending ones come first sometimes: their hooks must still run
+                sc["authz_order"] = "reversed"
+        if j % 3 == 0:
+            shape = SHAPES[(j // 3) % len(SHAPES)]
+            sc["shape"] = shape
+            if shape == "dup":
+                sc["offered"] = rng.choice([["http-01", "http-01", "dns-01", "tls-alpn-01"], ["dns-01", "http-01", "dns-01", "tls-alpn-01", "tls-alpn-01"]])
+            elif shape == "single":
+                sc["offered"] = [rng.choice(TYPES)]
+            elif shape == "empty":
+                sc["offered"] = []
+            elif shape == "unknown+":
+                sc["offered"] = ["dns-account-01"] + rng.sample(TYPES, 2) + ["x-unknown-09"]
+            elif shape == "per-authz":
+                sc["offered_for"] = {v: rng.choice([["dns-01"], ["http-01", "tls-alpn-01"], ["tls-alpn-01", "dns-01", "http-01"], []]) for v in vals}
+            elif shape == "wildcard-dns-only":
+                sc["wildcard_dns_only"] = True
+        if j % 4 == 1:
+            # "wildcard": false said explicitly — with a name AND its wildcard configured under different types,
+            # so that the flag decides which entry applies
+            sc["wildcard_false"] = True
+            have = {x.get("dns") for x in ids}
+            if not any(("*." + h) in have for h in have if h):
+                nm = next((h for h in have if h and not h.startswith("*.")), None) or "pair.example.org"
+                ids[:] = [x for x in ids if x.get("dns") != nm]
+                ids += [{"dns": nm, "challenge": rng.choice(["http-01", "tls-alpn-01"])}, {"dns": "*." + nm, "challenge": "dns-01"}]
+                rng.shuffle(ids)
+        if j % 5 == 2:
+            # a second hook for every challenge type, run after the recorder's: fails, fails but is allowed to, succeeds
+            sc["hook2"] = ["fail", "allowed-failure", "ok", "killed"][(j // 5) % 4]
+        if j % 12 == 7:
+            sc["slow_hooks_ms"] = 120
+        if j % 6 == 3:
+            sc["rollover_from"] = keys[(j + 3) % len(keys)] if not ctx.quick() else ["ecdsa_p256", "ed25519", "ecdsa_p384"][j % 3]
+        scs.append(sc)
+    return scs
+
+
 def run_flow(sc, root, helper):
     d = os.path.join(root, "f%d" % sc["idx"])
     opts = {"challenge_types": sc["offered"], "authz_status": {v: "valid" for v in sc["valid"]},
             "authz_order": sc["authz_order"], "challenge_order": sc["challenge_order"]}
+    opts["authz_status"].update(sc.get("status") or {})
+    opts["challenge_types_for"] = sc.get("offered_for") or {}
+    opts["wildcard_dns_only"] = bool(sc.get("wildcard_dns_only"))
+    opts["wildcard_false_explicit"] = bool(sc.get("wildcard_false"))
     cert = {"name": "crt", "identifiers": sc["ids"], "key_type": "ecdsa_p256"}
     acct = {"name": "acc1", "contacts": [{"mailto": "a@example.org"}], "key_type": sc["key_type"]}
     # a failing challenge hook exits non-zero or (every other scenario) is killed by a signal: no exit status at all
@@ -146,13 +268,47 @@ def run_flow(sc, root, helper):
     ca = mockca.MockCA(helper, opts=opts)
     ca.start()
     try:
-        obs = flow.run_scenario(d, [cert], accounts=[acct], ca=ca, helper=helper, hook_exits=exits, timeout=40)
+        if sc.get("rollover_from"):
+            # the account is first registered with another key, then the key is changed in the configuration:
+            # the proofs of the second run must be computed from the NEW key (the one the CA holds after the roll-over)
+            flow.run_scenario(os.path.join(d, "first"), [dict(cert, identifiers=[{"dns": "first.example.org", "challenge": "http-01"}])],
+                              accounts=[dict(acct, key_type=sc["rollover_from"])], ca=ca, helper=helper, timeout=40)
+            os.makedirs(d, exist_ok=True)
+            if os.path.isdir(os.path.join(d, "first", "accounts")):
+                shutil.copytree(os.path.join(d, "first", "accounts"), os.path.join(d, "accounts"), dirs_exist_ok=True)
+            n_first = len(ca.log)
+            first_authzs = set(ca.authzs)
+        obs = flow.run_scenario(d, [cert], accounts=[acct], ca=ca, helper=helper, hook_exits=exits, timeout=40,
+                                pre=second_hooks(sc), env={"HOOKREC_SLEEP_MS": str(sc["slow_hooks_ms"])} if sc.get("slow_hooks_ms") else None)
+        if sc.get("rollover_from"):
+            obs["ca"] = obs["ca"][n_first:]
+            for k in first_authzs:
+                ca.authzs.pop(k, None)
         authzs = {k: dict(v) for k, v in ca.authzs.items()}
         challs = {k: dict(v) for k, v in ca.challs.items()}
         accounts = {u: dict(a) for u, a in ca.accounts.items()}
     finally:
         ca.stop()
     return {"sc": sc, "obs": obs, "authzs": authzs, "challs": challs, "accounts": accounts}
+
+
+def second_hooks(sc):
+    """`pre` of flow.run_scenario: one more hook per challenge type ("rec2-…", after the recorder's in the
+    group), written into the configuration file before the daemon starts."""
+    mode = sc.get("hook2")
+    if not mode:
+        return None
+
+    def pre(root, cfg):
+        import cfggen
+        log = os.path.join(root, "hooks.log")
+        code = {"fail": 3, "allowed-failure": 3, "ok": 0, "killed": -15}[mode]
+        for t in ("challenge-http-01", "challenge-dns-01", "challenge-tls-alpn-01"):
+            h = flow.recorder_hook("rec2-" + t, t, log, code, allow_failure=(mode == "allowed-failure"))
+            cfg["hook"].append(h)
+            cfg["group"][0]["hooks"].append(h["name"])
+        cfggen.write(os.path.join(root, "acmed.toml"), cfg)
+    return pre
 
 
 def judge_flow(ctx, r):
@@ -165,8 +321,11 @@ def judge_flow(ctx, r):
     cfg = {}
     for x in sc["ids"]:
         v = x.get("dns") or str(ipaddress.ip_address(x["ip"]))
+        if sc.get("more") and "dns" in x:
+            v = ("*." + expected_dns(v[2:])) if v.startswith("*.") else expected_dns(v)
         cfg[v] = x["challenge"]
     hooks = [h for h in obs["hooks"] if h["name"].startswith("rec-challenge-") and not h["name"].endswith("-clean")]
+    hooks2 = [h for h in obs["hooks"] if h["name"].startswith("rec2-challenge-")]
     reqs = [e for e in obs["ca"] if e["kind"] == "req"]
     ready = [e for e in reqs if e["rk"] == "challenge"]
     fetched = {}
@@ -178,6 +337,8 @@ def judge_flow(ctx, r):
     for aid, a in r["authzs"].items():
         for cid in a["challs"]:
             c = r["challs"][cid]
+            if c["type"] not in TYPES:
+                continue     # a challenge type acmed does not know: never a candidate
             want_ops.append({"op": "proof", "token": c["token"], "thumbprint_input": ti, "type": c["type"]})
             want_keys.append((aid, cid))
     wants = dict(zip(want_keys, vlib.model(want_ops))) if want_ops else {}
@@ -225,18 +386,52 @@ def judge_flow(ctx, r):
             ok_h = [h for h, args, c2, w in mine if c2 == cid and h["exit"] == 0 and h["t_end"] <= e["t"]]
             after = after and bool(ok_h)
         failed = any(h["exit"] != 0 for h, _, _, _ in mine)
-        jin.append({"served_valid": a["status"] == "valid" and orig in sc["valid"], "configured_type": ctype or "",
+        if sc.get("hook2"):
+            # the second hook of the type: it belongs to the challenge whose proof it was handed; "those hooks
+            # succeeded" covers it (a failure that is allowed counts as success), and it too ends before the POST
+            for cid in a["challs"]:
+                w = wants.get((aid, cid), {})
+                sec = [h for h in hooks2 if w and flow.hook_args(h).get("proof") == w.get("proof")]
+                prim_ok = any(c2 == cid and h["exit"] == 0 for h, _, c2, _ in mine)
+                posts_c = [e for e in my_ready if e["path"].split("/")[-1] == cid]
+                if prim_ok and not sec:
+                    after = False      # the second hook of the type was not run at all
+                if any(h["exit"] != 0 for h in sec) and sc["hook2"] != "allowed-failure":
+                    failed = True
+                for e in posts_c:
+                    after = after and bool(sec) and all(h["t_end"] <= e["t"] for h in sec)
+        served_other = (sc.get("status") or {}).get(orig)
+        jin.append({"served_valid": (a["status"] == "valid" and orig in sc["valid"]) or
+                    (served_other is not None and a["status"] == served_other),
+                    "configured_type": ctype or "",
                     "offered": offered, "hook_types": [flow.hook_args(h).get("type", "") for h, _, _, _ in mine],
                     "hook_ident_ok": ident_ok, "proof_ok": proof_ok, "hook_failed": failed,
                     "ready_posts": len(my_ready), "ready_after_hooks": after})
         metas.append((aid, orig))
     v = vlib.model([{"op": "c05_judge", "authzs": jin}])[0]
-    ctx.case({k: sc[k] for k in ("ids", "offered", "valid", "fail_hook", "authz_order", "challenge_order")})
+    ctx.case({k: sc.get(k) for k in ("ids", "offered", "valid", "fail_hook", "authz_order", "challenge_order", "status", "shape",
+                                     "offered_for", "hook2", "rollover_from", "wildcard_false", "key_type")})
     ctx.count("flow:authzs", len(jin))
     ctx.count("flow:served-valid", sum(1 for j in jin if j["served_valid"]))
     ctx.count("flow:hook-failed", sum(1 for j in jin if j["hook_failed"]))
     ctx.count("flow:type-not-offered", sum(1 for j in jin if j["configured_type"] not in j["offered"]))
     ctx.count("flow:wildcard", sum(1 for _, o in metas if o.startswith("*.")))
+    if sc.get("more"):
+        for (aid, orig) in metas:
+            st = (sc.get("status") or {}).get(orig)
+            if st:
+                ctx.count("flow+:served-%s" % st)
+            if ":" in orig:
+                ctx.count("flow+:ipv6-authz")
+            if "xn--" in orig:
+                ctx.count("flow+:idn-authz")
+        for k in ("shape", "hook2", "rollover_from", "wildcard_false", "slow_hooks_ms"):
+            if sc.get(k):
+                ctx.count("flow+:%s=%s" % (k, sc[k] if k in ("shape", "hook2") else "yes"))
+        ctx.count("flow+:account-key:" + sc["key_type"])
+        if sc.get("rollover_from"):
+            ctx.count("flow+:key-change-requests", sum(1 for e in reqs if e["rk"] == "keyChange"))
+        ctx.count("flow+:dup-matching", sum(1 for j in jin if j["offered"].count(j["configured_type"]) > 1))
     if not v["holds"]:
         bad = [i for i, ok in enumerate(v["authz_ok"]) if not ok][0]
         ctx.violation("authorization for %s: %s" % (metas[bad][1], jin[bad]), {"sc": sc, "authz": jin[bad]})
@@ -257,7 +452,9 @@ def run(ctx):
     try:
         proofs_part(ctx, helper)
         lookups_part(ctx)
+        idents_part(ctx)
         scs = flow_scenarios(ctx)
+        scs += flow_scenarios_more(ctx, len(scs))
         with concurrent.futures.ThreadPoolExecutor(max_workers=10) as ex:
             results = list(ex.map(lambda s: run_flow(s, root, helper), scs))
         first = None
@@ -280,6 +477,11 @@ def replay(ctx):
     obj = r.get("replay", r)
     vlib.build_acmed()
     vlib.build_helper()
+    if "probe" in obj and obj["probe"].get("op") == "ident":
+        i = vlib.probe([obj["probe"]])[0]
+        m = vlib.model([{"op": "reverse_name", "octets_hex": ipaddress.ip_address(obj["probe"]["value"]).packed.hex()}])[0]
+        print("impl", i, "model", m)
+        return 0 if isinstance(i, dict) and "ok" in i and i["ok"].get("tls_alpn_name") == m.get("name") else 1
     if "probe" in obj:
         i = vlib.probe([obj["probe"]])[0]
         m = vlib.model([obj["probe"]])[0]
